@@ -47,6 +47,7 @@ BuildPaths == OpenPaths(RootType(op), op.sel, <<>>, MaxDepth + 1)
 Incomplete == {p \in BuildPaths : Len(SelsAt(op.sel, p)) = 0}
 
 NamesAt(p) == {SelsAt(op.sel, p)[i].name : i \in {k \in DOMAIN SelsAt(op.sel, p) : SelsAt(op.sel, p)[k].k = "f"}}
+ArgsAt(p, fn) == {SelsAt(op.sel, p)[i].args : i \in {k \in DOMAIN SelsAt(op.sel, p) : SelsAt(op.sel, p)[k].k = "f" /\ SelsAt(op.sel, p)[k].name = fn}}
 FragsAt(p) == {SelsAt(op.sel, p)[i].on : i \in {k \in DOMAIN SelsAt(op.sel, p) : SelsAt(op.sel, p)[k].k # "f"}}
 HasEntities == \E i \in DOMAIN op.sel : op.sel[i].name = "_entities"
 
@@ -76,8 +77,11 @@ AddField(p, fn, as) ==
   IN
   /\ phase = "build"
   /\ p \in BuildPaths
-  /\ fn \in Candidates(p) \ NamesAt(p)
   /\ as \in ArgSets(tn, fn)
+  \* a field is selected once -- or again under an alias with DIFFERENT argument values (a: user(id: "1") b: user(id: "2"))
+  /\ \/ fn \in Candidates(p) \ NamesAt(p)
+     \/ /\ fn \in Candidates(p) \cap NamesAt(p) /\ fn \in HasArgs[tn] /\ fn # "_entities"
+        /\ as \notin ArgsAt(p, fn) /\ CanAlias(op)
   /\ Len(p) = 0 => /\ Len(L) < MaxRoots
                    /\ fn = "_entities" => Len(L) = 0
                    /\ ~HasEntities
@@ -87,7 +91,8 @@ AddField(p, fn, as) ==
                    /\ Len(p) > 0
                    /\ IsLeafField(tn, fn)
                    /\ fn = "__typename" => ~\E g \in Candidates(p) \ {"__typename"} : IsLeafField(tn, g)
-  /\ op' = [op EXCEPT !.sel = PutAt(op.sel, p, Append(L, Field(fn, "", as, IF fn = "_entities" THEN EntityFrags ELSE <<>>))),
+  /\ op' = [op EXCEPT !.sel = PutAt(op.sel, p, Append(L, Field(fn, IF fn \in NamesAt(p) THEN NextAlias(op) ELSE "", as,
+                                                              IF fn = "_entities" THEN EntityFrags ELSE <<>>))),
                       !.fed = IF fn = "_entities" THEN EntityFed ELSE @]
   /\ nb' = nb + 1
   /\ UNCHANGED <<base, phase, steps, normOnly>>
@@ -115,7 +120,7 @@ Freeze ==
 Step(name, p, i, new, no) ==
   /\ op' = new
   /\ steps' = Append(steps, [a |-> name, p |-> p, i |-> i])
-  /\ normOnly' = (normOnly \/ no \/ SameKeyDiffer(new.sel))
+  /\ normOnly' = (normOnly \/ no \/ SameKeyDiffer(new.sel) \/ SameOnSiblings(new.sel))
   /\ UNCHANGED <<base, phase, nb>>
 
 \* reuse lane: after Freeze the same operation with other argument values (a chain of <= MaxReval changes)
